@@ -25,6 +25,10 @@ pub fn run(_args: &[String]) {
                 std::fs::create_dir_all(dir.join(".appdir")).unwrap();
                 touch_file(&dir.join(".appstate"), 5000);
                 touch_file(&dir.join(".appstate2"), 10);
+                // an application file whose name is not UTF-8 (Unix file names are bytes)
+                let raw_name = <std::ffi::OsStr as std::os::unix::ffi::OsStrExt>::from_bytes(&[0x2e, 0xff, 0x61]);
+                touch_file(&dir.join(raw_name), 7000);
+                let app_before = std::fs::metadata(dir.join(".appstate")).unwrap();
                 for i in 0..nkeys {
                     touch_file(&dir.join(format!("key{}", i)), 100 + i as i64);
                 }
@@ -44,6 +48,18 @@ pub fn run(_args: &[String]) {
                     if !dir.join(must).exists() {
                         problem = Some(format!("{} was removed", must));
                         break;
+                    }
+                }
+                if problem.is_none() && !dir.join(raw_name).exists() {
+                    problem = Some("a dot-prefixed application file with a non-UTF-8 name was removed".to_string());
+                }
+                if problem.is_none() {
+                    let app_after = std::fs::metadata(dir.join(".appstate")).unwrap();
+                    if FileTime::from_last_modification_time(&app_after) != FileTime::from_last_modification_time(&app_before)
+                        || FileTime::from_last_access_time(&app_after) != FileTime::from_last_access_time(&app_before)
+                        || app_after.len() != app_before.len()
+                    {
+                        problem = Some("a dot-prefixed application file was altered (re-stamped)".to_string());
                     }
                 }
                 if via == "set" && problem.is_none() && dir.join(".kismet_temp/old_tmp").exists() {
